@@ -246,6 +246,76 @@ def main():
                 c.violation(key + ":accepted:%s" % fmt, "python %s reader accepted the stream of a protocol that differs in one field type (%s, %s) and delivered %s" % (
                     fmt, x["edit"], direction, delivered[:2]), dict(replay, observed=lines[:4]))
 
+    # ---- a reader regenerated by `yardl generate --watch` after a schema-changing edit must refuse streams of the model as it was
+    #      before the edit (whatever the watcher process remembers about "protocol P" from earlier regenerations is stale)
+    import subprocess, signal, time, shutil
+    wr = os.path.join(sc, "watchrev")
+    os.makedirs(os.path.join(wr, "model"))
+    rev = lambda ty: "Rec: !record\n  fields:\n    x: %s\n    y: string?\nP: !protocol\n  sequence:\n    a: int\n    s: !stream\n      items: Rec\n" % ty
+    open(os.path.join(wr, "model", "_package.yml"), "w").write("namespace: Wrev\npython:\n  outputDir: ../py\n")
+    open(os.path.join(wr, "model", "m.yml"), "w").write(rev("int"))
+    wenv = yardl_env(home)
+    wtrace = os.path.join(wr, "trace.ndjson")
+    wenv["YARDL_VERIF_TRACE"] = wtrace
+    wlog = open(os.path.join(wr, "watch.log"), "wb")
+    wproc = subprocess.Popen([yardl, "generate", "--watch"], cwd=os.path.join(wr, "model"), env=wenv, stdout=wlog, stderr=subprocess.STDOUT)
+
+    def regen_ends():
+        try:
+            return sum(1 for l in open(wtrace) if '"RegenEnd"' in l)
+        except OSError:
+            return 0
+
+    def wait_for(cond, timeout):
+        t0 = time.time()
+        while time.time() - t0 < timeout:
+            if cond():
+                return True
+            time.sleep(0.05)
+        return False
+    try:
+        tfile = os.path.join(wr, "py", "wrev", "types.py")
+        if not wait_for(lambda: regen_ends() >= 1 and os.path.exists(tfile), 30):
+            c.note("watch-mode revision scenario skipped: the watcher did not finish its first generation")
+        else:
+            shutil.copytree(os.path.join(wr, "py"), os.path.join(wr, "pyA"))
+            cmdA = [PY, PYCALLS, os.path.join(wr, "pyA"), "wrev", "P"]
+            streams = {}
+            for fmt in ("binary", "ndjson"):
+                streams[fmt] = os.path.join(wr, "revA." + fmt)
+                drivers.run_calls(cmdA, "wcalls", fmt, streams[fmt], ["write 0 value 0", "write 1 list 0", "close"])
+            n0 = regen_ends()
+            tmp = os.path.join(wr, "model", ".m.yml.tmp")
+            open(tmp, "w").write(rev("uint"))
+            os.rename(tmp, os.path.join(wr, "model", "m.yml"))
+            if not wait_for(lambda: regen_ends() > n0 and "UInt32" in open(tfile).read(), 30):
+                c.note("watch-mode revision scenario skipped: no regeneration after the edit within 30 s")
+            else:
+                time.sleep(0.3)
+                cmdB = [PY, PYCALLS, os.path.join(wr, "py"), "wrev", "P"]
+                own = os.path.join(wr, "revB.binary")
+                drivers.run_calls(cmdB, "wcalls", "binary", own, ["write 0 value 0", "write 1 list 0", "close"])
+                rc, lines, se = drivers.run_calls(cmdB, "rcalls", "binary", own, ["read 0"])
+                if not [l for l in lines if l.startswith(("VAL", "OK"))]:
+                    raise Inconclusive("watch-mode revision scenario: the regenerated reader refuses its own stream: %s %s" % (lines[:3], se[-200:]))
+                for fmt in ("binary", "ndjson"):
+                    rc, lines, se = drivers.run_calls(cmdB, "rcalls", fmt, streams[fmt], ["read 0", "read 1", "take 1 1"])
+                    c.cov["traces_validated_against_impl"] += 1
+                    c.count(("watch-revision", fmt), nontrivial=True)
+                    delivered = [l for l in lines if l.startswith(("VAL", "OK"))]
+                    if delivered:
+                        c.violation("C15:watch:accepted:%s" % fmt, "the %s reader regenerated in watch mode after the edit 'x: int' -> 'x: uint' accepts a stream "
+                                    "written by the model as it was before the edit and delivers %s" % (fmt, delivered[:2]),
+                                    {"revision_a": rev("int"), "revision_b": rev("uint"), "observed": lines[:5]})
+    finally:
+        if wproc.poll() is None:
+            wproc.send_signal(signal.SIGTERM)
+            try:
+                wproc.wait(timeout=5)
+            except subprocess.TimeoutExpired:
+                wproc.kill()
+        wlog.close()
+
     # ---- several readers in one process: having accepted a stream with its own reader must not make another protocol's
     #      reader accept the same stream (all orders, both formats)
     two = os.path.join(sc, "two")
